@@ -17,7 +17,8 @@ from typing import Dict, List, Optional, Tuple
 from ..model import AnalysisError, ClassInfo, FunctionInfo
 from ..sellib import argmax_source, is_prob, onehot_source, strip_scalar
 from ..sym import NONE, State, Term, mentions, show, subterms
-from ..util import (SELF, arg, callee, guards_of, inline_globals, is_call, method_call, paths, resolve_stores,
+from ..util import (SELF, arg, bind_args, callee, guards_of, inline_globals, is_call, method_call, paths,
+                    resolve_stores,
                     returning, short, where)
 
 EXPLANATION = ('Selection-source (selsrc) analysis: for each index expression used by summary / '
@@ -355,6 +356,54 @@ def r10d(ctx):
     ctx.floor('R10d', 'option forwarding calls', n, 8)
 
 
+SAMPLER_OPTIONS = {'gumbel_softmax', 'hard_softmax', 'softmax_temperature', 'temperature',
+                   'disable_sampling', 'hard', 'gumbel'}
+
+
+def ctor_option_passthrough(ctx, rule: str):
+    """Sampler options given at construction: a function that takes a sampler option (hard /
+    gumbel / temperature / disable_sampling, under any of the library's names) and builds or
+    calls something with a parameter of the same name hands the option over unchanged -- not
+    another option, not a combination with another option (``gumbel and hard`` silently turns a
+    requested hard SoftMax into a soft one)."""
+    repo = ctx.repo
+    n = 0
+    for fn in repo.all_functions():
+        own = set(fn.params) & SAMPLER_OPTIONS
+        if not own:
+            continue
+        seen = set()
+        for p in paths(repo, fn):
+            for e in p.calls():
+                t = e.data[0]
+                c = callee(t)
+                if c in repo.classes:
+                    tgt, off = repo.find_method(repo.classes[c], '__init__'), 1
+                elif c in repo.functions:
+                    tgt, off = repo.functions[c], 0
+                else:
+                    continue
+                if tgt is None:
+                    continue
+                b = bind_args(t, tgt.params[off:])
+                for k in sorted(set(b) & own):
+                    key = (c, k, b[k])
+                    if key in seen:
+                        continue
+                    seen.add(key)
+                    n += 1
+                    ok = b[k] == ('param', k)
+                    ctx.ob(rule, f'{fn.cls.name + "." if fn.cls else ""}{fn.name} -> '
+                           f'{c.rsplit(".", 1)[-1]}({k}=...)', ok,
+                           f'{k} handed over unchanged' if ok else
+                           f'the {k} option of {fn.name} reaches {c.rsplit(".", 1)[-1]} as '
+                           f'{short(b[k], 80)}: the object is configured with another setting than '
+                           f'the one requested, so what is sampled (and priced) differs from the '
+                           f'one-hot selection that summary() / export() assume',
+                           where(fn, e.node))
+    ctx.floor(rule, 'option hand-over sites', n, 2)
+
+
 def r10e(ctx):
     """The mode the samplers test belongs to the caller.  The eval-mode one-hot and the
     training-mode Gumbel noise are selected by ``self.training``; a method of a sampler-bearing
@@ -407,6 +456,7 @@ def run(ctx):
     r10b(ctx)
     r10c(ctx)
     r10d(ctx)
+    ctor_option_passthrough(ctx, 'R10d')
     r10f(ctx)
     ctx.assume('temperature > 0 (division by it and softmax along dim 0 preserve the arg-max); no '
                'ties among coefficients')
